@@ -592,6 +592,9 @@ func prop(c Case) error {
 	if err := sameModel("the geometry returned by hex Decode, looked at again after later decodes", exp, hg, true); err != nil {
 		return err
 	}
+	if wantHex := hex.EncodeToString(want); hs != wantHex {
+		return fmt.Errorf("the string returned by %s hex Encode changed when other geometries were encoded afterwards:\n now  %s\n was  %s", c.Mode, hs, wantHex)
+	}
 	if !bytes.Equal(got, want) {
 		return fmt.Errorf("the slice returned by %s Marshal changed when another geometry was marshalled afterwards:\n now  % x\n was  % x", c.Mode, got, want)
 	}
@@ -893,4 +896,5 @@ func TestRegress(t *testing.T) { run.Regress(t, spec) }
 func TestReplay(t *testing.T) {
 	run.ReplayOne(t, spec)
 	run.ReplayOne(t, bigSpec)
+	run.ReplayOne(t, concSpec)
 }
